@@ -272,3 +272,21 @@ Theorem C09_source_impl_methods :
   methods_of "Remove<T,N> for GenericArray<T,N>" = Some ["remove_unchecked"; "swap_remove_unchecked"].
 Proof. repeat split. Qed.
 
+
+(* ---- T2: the bounds of the trait impls this property's operations come from, as they stand in the source now
+        (coq/gen/GenSigs.v gen_impl_bounds): code that is generic over the lengths / element type and states
+        exactly these bounds can call them ---- *)
+From Coq Require Import String.
+From GA Require Import SigDefs.
+From GAGen Require Import GenSigs.
+Local Open Scope string_scope.
+
+Theorem C09_source_impl_bounds :
+  bounds_of "unsafe Lengthen<T> for GenericArray<T,N>" = Some ["Add1<N>:ArrayLength"; "Add1<N>:Sub<B1,Output=N>"; "N:Add<B1>"; "N:ArrayLength"; "Sub1<Add1<N>>:ArrayLength"] /\
+  bounds_of "unsafe Shorten<T> for GenericArray<T,N>" = Some ["Add1<Sub1<N>>:ArrayLength"; "N:ArrayLength"; "N:Sub<B1>"; "Sub1<N>:Add<B1,Output=N>"; "Sub1<N>:ArrayLength"] /\
+  bounds_of "unsafe Split<T,K> for GenericArray<T,N>" = Some ["Diff<N,K>:ArrayLength"; "K:ArrayLength"; "N:ArrayLength"; "N:Sub<K>"] /\
+  bounds_of "unsafe Split<T,K> for &GenericArray<T,N>" = Some ["Diff<N,K>:ArrayLength"; "K:ArrayLength"; "N:ArrayLength"; "N:Sub<K>"] /\
+  bounds_of "unsafe Split<T,K> for &mutGenericArray<T,N>" = Some ["Diff<N,K>:ArrayLength"; "K:ArrayLength"; "N:ArrayLength"; "N:Sub<K>"] /\
+  bounds_of "unsafe Concat<T,M> for GenericArray<T,N>" = Some ["M:ArrayLength"; "N:Add<M>"; "N:ArrayLength"; "Sum<N,M>:ArrayLength"] /\
+  bounds_of "unsafe Remove<T,N> for GenericArray<T,N>" = Some ["N:ArrayLength"; "N:Sub<B1>"; "Sub1<N>:ArrayLength"].
+Proof. repeat split. Qed.
